@@ -114,6 +114,18 @@ def run_e2e(args):
                 rec["overlap"] = {"got": got, "want": want}
             except BaseException as e:  # noqa: BLE001
                 rec["overlap"] = {"got": got, "want": want, "error": f"{type(e).__name__}: {str(e)[:150]}"}
+        # two passes over ONE tf.data.Dataset object that overlap in time (an evaluation loop started while the training iterator is in
+        # mid-pass): each pass yields exactly the selected shards' examples
+        try:
+            k2 = max(2, len(infos) - 1)
+            tfds = ds.as_tfdataset(split="train", repeat=False, shuffle=0, batch_size=0, file_parallelism=2, parallelism=2, prefetch=1, shards=k2)
+            want_ids = sorted(x for i in range(k2) for x in shard_ids[i])
+            it1 = iter(tfds.as_numpy_iterator()); first = [sp.ident(next(it1))]
+            full = sorted(sp.ident(e) for e in tfds.as_numpy_iterator())
+            rest = [sp.ident(e) for e in it1]
+            rec["tf_overlap"] = {"k": k2, "want": want_ids, "inner": full, "outer": sorted(first + rest)}
+        except BaseException as e:  # noqa: BLE001
+            rec["tf_overlap"] = {"error": f"{type(e).__name__}: {str(e)[:150]}"}
         # the same handle after it has selected and iterated: a further session adds shards; every interface selects among the
         # shards as they are now (reference: a freshly opened dataset), with no option, a large first-k and a per-metadata limit
         if a.get("append"):
@@ -229,6 +241,14 @@ def run(ctx):
                 ctx.report({"kind": "iface-selection", "iface": x["iface"], "option": "consecutive-inline-predicates"},
                            f"{r['case']['fmt']} {x['iface']}: consecutive passes with different inline predicates: keeping metadata {x['keep']} yields {str(x['got'])[:100]} instead of {str(want)[:100]}",
                            {"case": r["case"], "pass": x, "want": want})
+    for r in recs:
+        to = r.get("tf_overlap")
+        if to is not None:
+            nruns += 1
+            if to.get("error") or to["inner"] != to["want"] or to["outer"] != to["want"]:
+                ctx.report({"kind": "iface-selection", "iface": "tf", "option": "overlapping-passes"},
+                           f"{r['case']['fmt']} as_tfdataset(shards={to.get('k')}): two passes over the same tf.data object overlapping in time: {to.get('error') or ''} the pass that was "
+                           f"in progress yields {to.get('outer')}, the one started meanwhile {to.get('inner')}, selected {to.get('want')}", {"case": r["case"], "tf_overlap": to})
     for r in recs:
         ov = r.get("overlap")
         if ov is None: continue
